@@ -224,6 +224,9 @@ class Interpreter(Interp):
                 return
             if limit and n >= limit:
                 raise PathEnd()
+            bound = getattr(self, "while_bound", None)
+            if bound is not None and n >= bound:
+                raise OutOfReach("while bound reached with a true test")
             if not limit and n > 64:
                 raise OutOfReach(f"while loop at line {node.lineno} without invariant does not terminate in 64 rounds")
             n += 1
